@@ -312,3 +312,59 @@ Proof.
            destruct (Z.eqb_spec (remaining (jget js x)) (Z.of_nat (S (S m)))); auto; lia.
       * destruct (Nat.eqb_spec c0 x); [congruence|]. reflexivity.
 Qed.
+
+Lemma reg_deps_untouched k ds : forall js x, x <> k -> ~ In x ds -> jget (reg_deps k ds js) x = jget js x.
+Proof.
+  induction ds as [|d ds IH]; intros js x Hk Hn; cbn [reg_deps]; auto.
+  assert (Hd : d <> x) by (intros ->; apply Hn; now left).
+  assert (Hn' : ~ In x ds) by (intros H; apply Hn; now right).
+  fold (jget js d). destruct (jdone (jget js d)).
+  - destruct (jerr (jget js d)); rewrite IH by auto; auto.
+    rewrite jget_upd. destruct (Nat.eqb_spec k x); [congruence|reflexivity].
+  - rewrite IH by auto. rewrite !jget_upd.
+    destruct (Nat.eqb_spec k x); [congruence|]. destruct (Nat.eqb_spec d x); [congruence|]. reflexivity.
+Qed.
+
+(* counting undone dependencies *)
+Definition countb' {A} (p : A -> bool) (l : list A) : nat := length (filter p l).
+
+Lemma count_le_undone (u : nat -> bool) ds d :
+  u d = true -> count_occ Nat.eq_dec ds d <= length (filter u ds).
+Proof.
+  intros Hu. induction ds as [|x ds IH]; cbn; [lia|].
+  destruct (Nat.eq_dec x d) as [->|Hne].
+  - rewrite Hu. cbn. lia.
+  - destruct (u x); cbn; lia.
+Qed.
+
+Lemma count2_le_undone (u : nat -> bool) ds d1 d2 :
+  d1 <> d2 -> u d1 = true -> u d2 = true ->
+  count_occ Nat.eq_dec ds d1 + count_occ Nat.eq_dec ds d2 <= length (filter u ds).
+Proof.
+  intros Hne H1 H2. induction ds as [|x ds IH]; cbn; [lia|].
+  destruct (Nat.eq_dec x d1) as [E1|N1]; destruct (Nat.eq_dec x d2) as [E2|N2]; try congruence; subst.
+  - rewrite H1. cbn. lia.
+  - rewrite H2. cbn. lia.
+  - destruct (u x); cbn; lia.
+Qed.
+
+
+(* flipping one element of the predicate from true to false *)
+Lemma filter_flip (u u' : nat -> bool) ds d :
+  u d = true -> u' d = false -> (forall x, x <> d -> u' x = u x) ->
+  length (filter u' ds) + count_occ Nat.eq_dec ds d = length (filter u ds).
+Proof.
+  intros Hu Hu' Hx. induction ds as [|x ds IH]; cbn; [lia|].
+  destruct (Nat.eq_dec x d) as [->|Hne].
+  - rewrite Hu, Hu'. cbn. lia.
+  - rewrite (Hx _ Hne). destruct (u x); cbn; lia.
+Qed.
+
+Lemma filter_none {A} (u : A -> bool) ds : length (filter u ds) = 0 -> forall d, In d ds -> u d = false.
+Proof.
+  induction ds as [|x ds IH]; cbn; [tauto|]. destruct (u x) eqn:E; cbn; [lia|].
+  intros H d [->|Hd]; auto.
+Qed.
+
+Lemma count_occ_zero_notin ds (d : nat) : count_occ Nat.eq_dec ds d = 0 <-> ~ In d ds.
+Proof. symmetry. apply count_occ_not_In. Qed.
